@@ -48,8 +48,10 @@ def pulse_list(ev):
 
 @st.composite
 def program(draw, max_pops=5, max_steps=5, allow_ancient=True, allow_true_split=True, allow_growth=True, allow_mig=True,
-            allow_remove=True, allow_pulse=True, allow_admix=True, favor_split=False):
-    nsteps = draw(st.integers(1, max_steps))
+            allow_remove=True, allow_pulse=True, allow_admix=True, favor_split=False, eager=False):
+    # eager: populations are created at every step until max_pops is reached (so that max_pops populations, ancient samples
+    # among them, are common rather than rare)
+    nsteps = draw(st.integers(max_pops if eager else 1, max(max_steps, max_pops) if eager else max_steps))
     live = [dict(frozen=False)]          # mirrors the native axis order
     steps = []
     nanc = 0
@@ -76,6 +78,11 @@ def program(draw, max_pops=5, max_steps=5, allow_ancient=True, allow_true_split=
             choices.append('remove')
         if s == 0 and k == 1:
             choices = [c for c in choices if c in ('none', 'branch', 'split', 'split3')]
+        if eager and k < max_pops:
+            grow = [c for c in choices if c in ('branch', 'ancient', 'ancient', 'split')]
+            if s == 0:
+                grow = [c for c in grow if c != 'ancient']
+            choices = grow or choices
         c = draw(st.sampled_from(choices))
         if c == 'branch':
             ev = dict(op='branch', parent=draw(st.sampled_from(active)), ancient=False)
